@@ -116,8 +116,8 @@ TABLE['C05'] = dict(
     summary='Proved on the code model of Demography.epochs: tiling of [0,inf), change times are boundaries, value in force for any '
             'number of discrete events (latest change wins, stable order on ties), lookup of get_epochs is pointwise, order '
             'independence (no conflicts), discretised endpoint mean, split orientation lemmas, and kernel-checked counterexamples '
-            'for the three historic defects. Partial: schedules mixing discretised events with others are covered per step '
-            '(nextEpoch) not as a whole; float ceil with non-dyadic steps.',
+            'for the three historic defects. Schedules mixing discretised events with the other classes: whole-schedule theorems '
+            'mixed_value_in_force_discrete, mixed_discretised_mean, mixed_terminates, mixed_epoch_length, mixed_grid_boundaries. Partial: float ceil with non-dyadic steps.',
     theorems=[
         ('mixed_value_in_force', 'PG.mixed_value_in_force_discrete', 'schedules mixing all event classes: keys only discrete events touch still follow the latest change'),
         ('mixed_discretised_mean', 'PG.mixed_discretised_mean', 'schedules mixing all event classes: endpoint mean inside the window'),
